@@ -612,7 +612,7 @@ def _strategy_annotate(tier):
 
 AMINO = ['ALA', 'GLY', 'SER', 'VAL', 'PRO', 'ASP', 'LYS', 'PHE', 'THR', 'CYS', 'LEU', 'ASN', 'GLU']
 SIDE_MODS = {'ASP': ['ASP-HD1', 'ASP-HD2'], 'GLU': ['GLU-HE1', 'GLU-HE2']}
-TER_MODS = {'nter': ['N-ter', 'NH2-ter'], 'cter': ['C-ter', 'COOH-ter']}
+TER_MODS = {'nter': ['N-ter', 'NH2-ter', 'none'], 'cter': ['C-ter', 'COOH-ter', 'none', 'none']}
 
 
 def block_names_edges(ff, resname):
@@ -825,6 +825,9 @@ def _run_repair(case):
         classes.append('nothing-hit')
     if scrub_blocks(ff):
         classes.append('observation:force-field-block-annotated-in-place')
+    if any(mods and set(mods) == {'none'} and not muts and {atoms[n]['atomname'] for n in res.atoms} - set(block_names_edges(ff, res.resname)[0])
+           for res, muts, mods in expect.values()):
+        classes.append('only-none-requested-on-residue-with-surplus-atoms')
     if any(rd.get('oxt') for rd in case['residues']):
         classes.append('input-has-OXT')
         last = expect[(case['chain'], case['residues'][-1]['resid'])]
@@ -891,6 +894,9 @@ def _repair_case(draw):
             r = draw(st.sampled_from(cands))
             modifications.append(spec_for(r, 'ASP-HD2'))
     residues[-1]['oxt'] = draw(st.sampled_from([False, True, True]))
+    if residues[-1]['oxt'] and 'cter' not in used and draw(st.sampled_from([False, False, True])):
+        # the placeholder 'none' as the only request on a residue that carries a surplus atom, addressed like a side chain
+        modifications.append(spec_for(residues[-1], 'none'))
     if not mutations and not modifications:
         i = draw(st.integers(0, nres - 1))
         mutations.append(spec_for(residues[i], draw(st.sampled_from(AMINO))))
